@@ -2,6 +2,7 @@ package agwsim
 
 import (
 	"fmt"
+	"net"
 	"runtime/debug"
 	"sync"
 	"time"
@@ -61,7 +62,10 @@ func pattern(seed, off, n int) []byte {
 }
 
 type opRec struct {
-	Name       string
+	Name string
+	// Sess: index of the session the call belongs to, -1 for the calls on the
+	// TNC and the Port themselves (open, register, close).
+	Sess       int
 	Start, End time.Duration
 	Done       bool
 	Err        string // "" = nil
@@ -77,18 +81,62 @@ type writeRec struct {
 	N    int
 }
 
-// run is the state of one execution.
-type run struct {
-	sim *core.Sim
-	p   *Plan
-	tnc *agwtnc.TNC
+// maxSessions bounds the sessions of one run (the first one plus Plan.More).
+const maxSessions = 8
 
-	mu   sync.Mutex
-	sess *agwtnc.Session
+// spec is the per-session part of the plan, in one shape for the first session
+// (top-level plan fields) and the later ones (Plan.More).
+type spec struct {
+	Start         string
+	GapMs         int
+	Mode          string
+	Remote        string
+	Digis         []string
+	UseURL        bool
+	DialTimeoutMs int
+	Connect       string
+	ConnectLatMs  int
+	Script        *Script
+	Client        *Client
+}
+
+func specs(p *Plan) []spec {
+	out := []spec{{Mode: p.Mode, Remote: p.Remote, Digis: p.Digis, UseURL: p.UseURL, DialTimeoutMs: p.DialTimeoutMs,
+		Connect: p.TNC.Connect, ConnectLatMs: p.TNC.ConnectLatMs, Script: &p.Script, Client: &p.Client}}
+	for i := range p.More {
+		if len(out) >= maxSessions {
+			break
+		}
+		m := &p.More[i]
+		out = append(out, spec{Start: m.Start, GapMs: m.GapMs, Mode: m.Mode, Remote: m.Remote, Digis: m.Digis, UseURL: m.UseURL,
+			DialTimeoutMs: m.DialTimeoutMs, Connect: m.Connect, ConnectLatMs: m.ConnectLatMs, Script: &m.Script, Client: &m.Client})
+	}
+	return out
+}
+
+// sess is the state of one session (one connection attempt and, when it
+// succeeds, the connection) of an execution. Guarded by run.mu.
+type sess struct {
+	idx  int
+	sp   spec
 	key  agwtnc.ConnKey
-	have bool // key is valid (a connection reached "connected" in the model)
+	id   int  // incarnation of key in the model; valid when have
+	have bool // a connection of this session reached "connected" in the model
 
-	ops    []opRec
+	// life cycle
+	group       int    // sessions of one group may overlap; groups are separated by a quiet link
+	skipped     string // why the session was not run ("" = it was)
+	attempted   bool   // the connect attempt (Dial or Listen/Accept) was started
+	attemptAt   time.Duration
+	dialling    bool // inside Dial: a connection the model establishes for key is this session's
+	connectDone chan struct{}
+	established bool // the application got a net.Conn
+	ended       bool
+	endedAt     time.Duration
+	connClosed  bool // the application's Close call on the connection was made
+	conn        net.Conn
+	rd, wr      *core.GoResult
+
 	writes []writeRec
 
 	// reader
@@ -101,23 +149,15 @@ type run struct {
 	readStarted bool
 	smallBufHit bool
 
-	// TNC->host link tracking (for probes and for the link-closure signature)
-	trk            streamTracker
-	hostClosedLink bool // the library closed its TCP connection
-	hostClosedAt   time.Duration
-	splitAtClose   bool
-
 	// script
 	items       []item
 	pumpDone    bool
 	pumpDoneAt  time.Duration
 	maxUnread   int
-	faultFired  bool
-	faultAt     time.Duration
 	foreignSent int
 	inboundAt   time.Duration
 	inboundSent bool
-	inboundKey  agwtnc.ConnKey
+	inboundID   int
 
 	closerStarted   bool
 	closerStartedAt time.Duration
@@ -126,8 +166,6 @@ type run struct {
 	settledRead     int
 	settledSent     int
 	settledAt       time.Duration
-	jseq            int
-	refusalSince    time.Duration
 	inRead          bool
 	inReadSince     time.Duration
 	lostBytes       int
@@ -135,6 +173,52 @@ type run struct {
 	gateSince       time.Duration
 	writerDone      bool
 	dialAbandoned   bool
+}
+
+// pat returns the pattern seed of stream kind (1: TNC->host data, 2: Write
+// payloads, 3: UI payloads) for this session: every session has its own
+// patterns, so bytes that turn up in the wrong session are recognisable.
+func (se *sess) pat(kind int) int { return kind + 16*se.idx }
+
+func (se *sess) frames() []int { return se.sp.Script.Frames }
+
+// run is the state of one execution.
+type run struct {
+	sim *core.Sim
+	p   *Plan
+	tnc *agwtnc.TNC
+
+	mu   sync.Mutex
+	sess *agwtnc.Session // the model's side of the TCP link
+	ss   []*sess
+
+	ops []opRec
+
+	// TNC->host link tracking (for probes and for the link-closure signature)
+	trk            streamTracker
+	hostClosedLink bool // the library closed its TCP connection
+	hostClosedAt   time.Duration
+	splitAtClose   bool
+
+	faultFired   bool
+	faultAt      time.Duration
+	refusalSince time.Duration // the last time the script announced an inbound connection nobody accepts
+	refusalKey   agwtnc.ConnKey
+	jseq         int
+	accepting    int  // Accept calls in progress
+	running      int  // sessions between connect attempt and end
+	portGone     bool // the application closed the Port or the TNC: no further session
+	overlapped   bool // two sessions had a connection at the same time
+}
+
+func newRun(sim *core.Sim, p *Plan) *run {
+	r := &run{sim: sim, p: p}
+	for i, sp := range specs(p) {
+		se := &sess{idx: i, sp: sp, connectDone: make(chan struct{}), id: -1, inboundID: -1}
+		se.key = agwtnc.ConnKey{Port: byte(clamp(p.Port, 0, 255)), Local: p.MyCall, Remote: sp.Remote}
+		r.ss = append(r.ss, se)
+	}
+	return r
 }
 
 // jitter returns a different sub-microsecond offset for every environment
@@ -171,6 +255,10 @@ func (r *run) stepDelay(i int) time.Duration {
 	return ms(core.TapeAt(r.p.Client.StepDelayMs, i, 1))
 }
 
+func (r *run) stepDelayOf(se *sess, i int) time.Duration {
+	return ms(core.TapeAt(se.sp.Client.StepDelayMs, i, 1))
+}
+
 func (r *run) session() *agwtnc.Session {
 	r.mu.Lock()
 	defer r.mu.Unlock()
@@ -181,24 +269,41 @@ func opClass(name string) string { return name }
 
 // call runs one library call on the current goroutine, records it and turns a
 // panic into a violation instead of letting it end the scripted client.
-func (r *run) call(name string, fn func() error) bool {
-	_, ok := r.callI(name, fn)
+func (r *run) call(se *sess, name string, fn func() error) bool {
+	_, ok := r.callI(se, name, fn)
 	return ok
 }
 
-// callI is call that also returns the index of the operation record.
-func (r *run) callI(name string, fn func() error) (int, bool) {
-	rec := opRec{Name: name, Start: r.sim.Now()}
+// tag prefixes the log lines of the later sessions (the first session logs as
+// it always did).
+func tag(se *sess) string {
+	if se == nil || se.idx == 0 {
+		return ""
+	}
+	return fmt.Sprintf("s%d ", se.idx)
+}
+
+// callI is call that also returns the index of the operation record. se is
+// the session the call belongs to (nil: a call on the TNC or the Port).
+func (r *run) callI(se *sess, name string, fn func() error) (int, bool) {
+	rec := opRec{Name: name, Sess: -1, Start: r.sim.Now()}
 	r.mu.Lock()
-	sess, key, have := r.sess, r.key, r.have
+	mdl, id := r.sess, -1
+	if se != nil {
+		rec.Sess = se.idx
+		if se.have {
+			id = se.id
+		}
+	}
 	r.mu.Unlock()
-	if sess != nil && have {
-		rec.ConnState, rec.Outstanding, _ = sess.ConnState(key)
+	if mdl != nil && id >= 0 {
+		rec.ConnState, rec.Outstanding, _ = mdl.StateID(id)
 	}
 	r.mu.Lock()
 	idx := len(r.ops)
 	r.ops = append(r.ops, rec)
 	r.mu.Unlock()
+	name = tag(se) + name
 	r.sim.Logf("cli: %s ...", name)
 	var err error
 	panicked := false
@@ -313,5 +418,20 @@ func (t *streamTracker) segment(p []byte) {
 
 func (r *run) describe() string {
 	p := r.p
-	return fmt.Sprintf("regime=%s port=%d mode=%s digis=%d frames=%d writes=%d", p.Regime, p.Port, p.Mode, len(p.Digis), len(p.Script.Frames), len(p.Client.Writes))
+	d := fmt.Sprintf("regime=%s port=%d mode=%s digis=%d frames=%d writes=%d", p.Regime, p.Port, p.Mode, len(p.Digis), len(p.Script.Frames), len(p.Client.Writes))
+	if len(r.ss) > 1 {
+		d += fmt.Sprintf(" sessions=%d", len(r.ss))
+	}
+	return d
+}
+
+// describeSess names one of the later sessions in messages.
+func (r *run) describeSess(se *sess) string {
+	same := "different-remote"
+	for _, o := range r.ss[:se.idx] {
+		if o.sp.Remote == se.sp.Remote {
+			same = "same-remote-as-session-" + fmt.Sprint(o.idx+1)
+		}
+	}
+	return fmt.Sprintf("session %d of %d: mode=%s %s start=%s digis=%d frames=%d writes=%d", se.idx+1, len(r.ss), se.sp.Mode, same, se.sp.Start, len(se.sp.Digis), len(se.sp.Script.Frames), len(se.sp.Client.Writes))
 }
